@@ -228,6 +228,30 @@ func sameBase(a, b ssa.Value) bool {
 	if a == b {
 		return true
 	}
+	// the same element of the same list, read twice (`resps[i].Errors … resps[i].Data`): same
+	// list value, same index value, and the function never stores into an element of that list
+	elem := func(v ssa.Value) *ssa.IndexAddr {
+		if u, ok := v.(*ssa.UnOp); ok && u.Op == token.MUL {
+			v = u.X // a list of pointers: the element is loaded
+		}
+		ia, _ := v.(*ssa.IndexAddr)
+		return ia
+	}
+	_, la := a.(*ssa.UnOp)
+	_, lb := b.(*ssa.UnOp)
+	if la == lb {
+		ia, ib := elem(a), elem(b)
+		if ia != nil && ib != nil && ia.X == ib.X && ia.Index == ib.Index {
+			for _, ins := range allInstrs(ia.Parent()) {
+				if st, ok := ins.(*ssa.Store); ok {
+					if w, ok := st.Addr.(*ssa.IndexAddr); ok && w.X == ia.X {
+						return false
+					}
+				}
+			}
+			return true
+		}
+	}
 	return sameValue(a, b)
 }
 
